@@ -369,7 +369,12 @@ class Grammar:
         new_symbols = [self.starting_symbol]
 
         def add(k):
-            if k not in considered_subtypes:
+            if is_metahandler(k) or is_generic_list(k):
+                add(get_generic_parameter(k))
+            elif is_generic(k):
+                for v in get_generic_parameters(k):
+                    add(v)
+            elif k not in considered_subtypes:
                 considered_subtypes.append(k)
                 new_symbols.append(k)
 
@@ -380,17 +385,7 @@ class Grammar:
                     add(k)
             elif is_dataclass(c):
                 for _, k in get_arguments(c):
-                    if is_metahandler(k):
-                        k = get_generic_parameter(k)
-                        add(k)
-                    elif is_generic_list(k):
-                        k = get_generic_parameter(k)
-                        add(k)
-                    elif is_generic(k):
-                        for v in get_generic_parameters(k):
-                            add(v)
-                    else:
-                        add(k)
+                    add(k)
             elif c in [bool, int, str, float, list, tuple]:
                 pass
             else:
